@@ -22,7 +22,7 @@ def check(ctx, src):
     ctx.check(":compiler (HyASTCompiler module :extra-macros macros)" in t and ":module module" in t and ":tree model" in t, "MX-FLAGS", f"{UT}|_macroexpand|arguments", "tree/module/compiler wiring changed", UT, mx.line, detail="tree, module, compiler(extra-macros)")
     m1 = hf.defn("macroexpand-1")
     m = hf.defn("macroexpand")
-    ctx.require(m1 is not None and m is not None, "macroexpand / macroexpand-1 not found")
+    ctx.need(m1 is not None and m is not None, "macroexpand / macroexpand-1 not found")
     ctx.check(m1.items[-1].src() == "(_macroexpand model (or module (calling-module)) macros :once True)", "MX-FLAGS", f"{UT}|macroexpand-1|once", f"macroexpand-1 body is {m1.items[-1].src()}", UT, m1.line, witness="(hy.macroexpand-1 '(m 5)) expands to a fixpoint", detail=":once True")
     ctx.check(m.items[-1].src() == "(_macroexpand model (or module (calling-module)) macros)", "MX-FLAGS", f"{UT}|macroexpand|no once", f"macroexpand body is {m.items[-1].src()}", UT, m.line, detail="no :once")
     # --- macros.macroexpand
@@ -30,7 +30,7 @@ def check(ctx, src):
     f = mc.func("macroexpand")
     ctx.require(f is not None, "macros.macroexpand not found")
     loop = next((n for n in f.body if isinstance(n, ast.While)), None)
-    ctx.require(loop is not None, "macroexpand loop not found")
+    ctx.need(loop is not None, "macroexpand loop not found")
     ctx.check(norm(loop.test) == "isinstance(tree, Expression) and tree", "MX-LOOP", f"{MC}|macroexpand|loop condition", f"loop condition is `{norm(loop.test)}`", MC, loop.lineno, detail="while tree is a non-empty Expression")
     ret = pyq.contains(loop, lambda n: isinstance(n, ast.Return))
     ctx.check(ret is not None and norm(ret.value) == "obj if result_ok else tree" and isinstance(ret._parent, ast.If) and norm(ret._parent.test) == "isinstance(obj, (hy.compiler.Result, AST))", "MX-LOOP", f"{MC}|macroexpand|result",
@@ -49,7 +49,7 @@ def check(ctx, src):
     nm = pyq.contains(loop, lambda n: isinstance(n, ast.If) and norm(n.test) == "not m" and isinstance(n.body[0], ast.Break))
     ctx.check(nm is not None, "MX-LOOP", f"{MC}|macroexpand|no macro", "a head that names no macro must end the loop", MC, loop.lineno, detail="if not m: break")
     hd = next((n for n in loop.body if isinstance(n, ast.If) and "fn[0] == Symbol('.')" in flat(n.test)), None)
-    ctx.require(hd is not None, "head classification not found")
+    ctx.need(hd is not None, "head classification not found")
     t = flat(hd.test)
     ctx.check(t == "isinstance(fn, Expression) and fn and (fn[0] == Symbol('.')) and all((isinstance(x, Symbol) for x in fn))", "MX-HEAD", f"{MC}|macroexpand|dotted head", f"dotted-head test is `{t}`; the emptiness test must precede fn[0]", MC, hd.lineno,
               witness="(hy.macroexpand-1 '(() 1)) raises IndexError instead of returning the model", detail="isinstance and fn and fn[0] == '.' and all symbols")
